@@ -1,4 +1,5 @@
 import PoaVerif.Model.Trig
+import PoaVerif.Facts
 /-
   Line-protocol driver: reads operation lines (Tie B protocol, DESIGN.md appendix A) on stdin,
   runs the model, prints canonical observation lines on stdout.
@@ -141,7 +142,7 @@ def observe (s : App) : List String :=
 def txrStr : TxR → String
   | .ok => "ok" | .err e => errStr e | .unknown => "?"
 
-def theEnv : Env := { ante := defaultAnteFacts, limiter := simappLimiter }
+def theEnv : Env := genEnv
 
 def trigName : TrigId → String
   | .D1 => "D1" | .D2 => "D2" | .D3 => "D3" | .D4 => "D4" | .D5 => "D5" | .D6 => "D6" | .D7 => "D7"
@@ -151,7 +152,7 @@ def trigName : TrigId → String
 def trigLines (env : Env) (s0 : App) (b : Block) : List String := Id.run do
   let s1 := { s0 with height := s0.height + 1, time := s0.time + b.dt }
   let s2 := match App.slashingBegin b.votes s1 with | .ok s => s | .error _ => s1
-  let mut s := match s2.poaBegin with | .ok s => s | .error _ => s2
+  let mut s := match App.poaBegin env.lim s2 with | .ok s => s | .error _ => s2
   let mut incs : List (Signer × Nat) := []
   let mut res : List String := []
   let mut i := 0
@@ -161,7 +162,7 @@ def trigLines (env : Env) (s0 : App) (b : Block) : List String := Id.run do
     s := r.2.1
     incs := r.2.2
     if r.1 == TxR.ok then
-      let t := (Trig.ofList pre tx.signer tx.msgs).1.eraseDups
+      let t := (Trig.ofList env.lim pre tx.signer tx.msgs).1.eraseDups
       if !t.isEmpty then
         res := res ++ [s!"TRIG {i}" ++ String.join (t.map (fun x => " " ++ trigName x))]
     i := i + 1
@@ -253,7 +254,7 @@ partial def runAll : P Unit := do
     out s!"VDR {cls} {cls}"
     runAll
   | ["VS", t, p] =>
-    let r := App.validateSetPower (← pTarget t) (← pNat p)
+    let r := App.validateSetPower theEnv.lim (← pTarget t) (← pNat p)
     out s!"VSR {match r with | none => "pass" | some e => errStr e}"
     runAll
   | ["VP", ub, mv, me, hi, dn, mc] =>
